@@ -20,6 +20,14 @@ CLAIMED = {
    text="TLC checks NoPanic, a re-entry depth bound and termination (liveness under weak fairness, no state constraint) of the odometer model on the small-scope family incl. empty ranges. Binding: configurations (empty ranges, sizes 1..1326 around the 256/512 boundaries, a one-combo range blocked for a whole turn beside 250/1326 combos, everything blocked, 3-4 players, random wide ranges) are drained in child processes on a 2 MiB thread in a dev (overflow checks) and a release build; TLC validates outcome = ok, count = number of legal deals, None sticky.",
    note="Trusted: the child's exit path as the observation of panics/stack exhaustion; stack bytes are not modelled. Inputs sampled.",
    technique="TLA+ odometer model (invariants + liveness) with TLC; trace validation of child-process drains in two build profiles", ref="DESIGN.md 5/C08"),
+ "C04": dict(
+   text="TLC proves the tiling theorem of Scopes.tla for every valid chain of up to 4 scopes over every run shape on a small deck, and checks the odometer's stop test against the lexicographic window for every (from,to) pair of the real deck's tail window. Binding: for the suite's configuration and random ones, the unscoped run and a scoped run from every one of the 1176 start positions (ends at the same position, the next rollover, random distances, the terminal), ends adjacent to every rollover, repeated scope() calls, further next() calls after None and random chains are executed on the real evaluator; TLC compares each scoped run with the window of the unscoped run, position by position.",
+   note="Trusted: harness projection, TLC. Scope ends are positions or the terminal (48,49); other end values are outside the statement. Ends per start are sampled.",
+   technique="TLA+ Scopes spec (tiling theorem) + odometer refinement with TLC; trace validation of scoped vs unscoped real runs", ref="DESIGN.md 5/C04"),
+ "C16": dict(
+   text="ValidChain => tiling is checked by TLC on Scopes.tla. Binding: calculate_scopes(n), compiled from the example's source by path, is run for every n up to 600 (1024 thorough) and sampled n up to 2^20; TLC validates each result as a valid chain of n scopes (starts at (0,1), ends at (48,49), contiguous, monotone, only valid positions); for sampled n the chain is executed on the real evaluator and must add up to the unscoped run.",
+   note="Trusted: harness projection, TLC. The f32 arithmetic is observed per n, not modelled, so worker counts beyond those run are not covered.",
+   technique="TLA+ Scopes spec with TLC; trace validation of calculate_scopes outputs", ref="DESIGN.md 5/C16"),
  "C07": dict(
    text="Category boundaries of the class numbering are derived from the rules by TLC (MCPoker); hand_type() of concrete hands for every key - hence every one of the 4,824 reachable classes including the first and last of each category - is validated by TLC against the category of Eval7(cards), and hand_type() is compared on all 133,784,560 sets with the TLC-exported categories. Exhaustive.",
    note="Trusted: Poker.tla, harness projection (category compared through its Debug name), TLC.",
